@@ -15,6 +15,7 @@ Requests:
   known  G T             -> ok s:a.b.c;…                 (inferred stack knowledge, debugging)
   first  G               -> ok X:a,b;…  | err FuelExhausted   (Model.LR.firstSets, sorted)
   recog  G toks          -> ok true|false                (Spec.CFG.recognise)
+  firstlegacy G / parselegacy G T toks : the same for Model.LR.Legacy (code before the fix commits)
   treeok G tree toks     -> ok true|false                (Spec.CFG.treeOk ∧ yield = toks)
   all    G T n           -> ok r0|r1|…   parse result of every string over terms of length ≤ n
   lang   G n             -> ok 0101…     recogniser verdict for the same strings
@@ -103,7 +104,7 @@ def strings (terms : List Nat) : Nat → List (List Nat)
 def allStrings (terms : List Nat) (n : Nat) : List (List Nat) :=
   (List.range (n + 1)).flatMap (strings terms)
 
-def parseFuel : Nat := 20000
+def parseFuel : Nat := 3000
 
 def recogFuel (G : Grammar) (w : List Nat) : Nat :=
   (nontermNames G).length * (w.length + 1) * (w.length + 1) + 2
@@ -135,6 +136,16 @@ def step (line : String) : String :=
         | some tab => "ok " ++ showFirst tab
         | none => "err FuelExhausted")
      | none => "bad-op")
+  | ["firstlegacy", t, s, p] =>
+    (match parseGrammar t s p with
+     | some G => (match Legacy.firstSets G (2 * G.prods.length * (G.terms.length + 3) + 3) with
+        | some tab => "ok " ++ showFirst tab
+        | none => "err FuelExhausted")
+     | none => "bad-op")
+  | ["parselegacy", t, s, p, a, g, toks] =>
+    (match parseGrammar t s p, parseTables a g, natList? toks with
+     | some G, some T, some w => showResult (Legacy.parse G T parseFuel (mkToks w))
+     | _, _, _ => "bad-op")
   | ["recog", t, s, p, toks] =>
     (match parseGrammar t s p, natList? toks with
      | some G, some w => (match recognise G (recogFuel G w) w with
